@@ -20,7 +20,7 @@ Definition do_repair (s : state) (nums : list N) (nf : N) : option state :=
   let olds := concat (levels s) in
   let news := match pend, nums with
               | [], _ => Some []
-              | _ :: _, n :: _ => if negb (existsb (fun f => fnum f =? n) olds) then Some [mkF n pend] else None
+              | _ :: _, n :: _ => if forallb (fun f => fnum f <? n) olds then Some [mkF n pend] else None   (* rep->next_file_number++ *)
               | _ :: _, [] => None
               end in
   match news with
